@@ -28,6 +28,9 @@ def snapshot(world):
             continue
         for lab, o in objs.items():
             data["%s%d" % (kind, lab)] = sorted((k, repr(v)) for k, v in o._data.items())
+            if kind == "instance":
+                # the public flag 'is_top_instance' (a refused call must not touch it either)
+                data["%s%d" % (kind, lab)].append(("<is_top_instance>", repr(getattr(o, "is_top_instance", None))))
     # what the naming layer holds and answers (a structural refusal must not disturb it either)
     from spydrnet.plugins import namespace_manager
     tables, answers = {}, {}
